@@ -20,347 +20,6 @@ func TestMain(m *testing.M) {
 	os.Exit(code)
 }
 
-// Case is one generated input.
-type Case struct {
-	Input  string `json:"input"`
-	Origin string `json:"origin"` // grammar | mutation:<kind> | bytes
-	NewTag string `json:"new_tag,omitempty"`
-	NewDig string `json:"new_dig,omitempty"`
-}
-
-// ---------------------------------------------------------------- generators
-
-var lowNum = []rune("abcdefghijklmnopqrstuvwxyz0123456789")
-var alnum = []rune("abcdefghijklmnopqrstuvwxyzABCDEFGHIJKLMNOPQRSTUVWXYZ0123456789")
-
-func genStr(t *rapid.T, alphabet []rune, min, max int, label string) string {
-	n := rapid.IntRange(min, max).Draw(t, label+"_n")
-	var sb strings.Builder
-	for i := 0; i < n; i++ {
-		sb.WriteRune(rapid.SampledFrom(alphabet).Draw(t, label))
-	}
-	return sb.String()
-}
-
-func genHostPart(t *rapid.T, upper bool) string {
-	al := lowNum
-	if upper {
-		al = alnum
-	}
-	s := genStr(t, al, 1, 6, "hp")
-	if rapid.IntRange(0, 5).Draw(t, "hyph") == 0 {
-		s = s + "-" + genStr(t, al, 1, 3, "hp2")
-	}
-	return s
-}
-
-func genRegistry(t *rapid.T) string {
-	switch rapid.IntRange(0, 9).Draw(t, "regkind") {
-	case 0:
-		return "localhost"
-	case 1:
-		return "localhost:" + genStr(t, []rune("0123456789"), 1, 5, "port")
-	case 2: // ipv4
-		return fmt.Sprintf("%d.%d.%d.%d", rapid.IntRange(0, 255).Draw(t, "a"), rapid.IntRange(0, 255).Draw(t, "b"),
-			rapid.IntRange(0, 255).Draw(t, "c"), rapid.IntRange(0, 255).Draw(t, "d"))
-	case 3: // ipv4:port
-		return fmt.Sprintf("127.0.0.%d:%d", rapid.IntRange(0, 255).Draw(t, "d"), rapid.IntRange(1, 65535).Draw(t, "p"))
-	case 4: // short host with port
-		return genHostPart(t, rapid.Bool().Draw(t, "up")) + ":" + genStr(t, []rune("0123456789"), 1, 5, "port")
-	case 5: // upper case single label
-		s := genHostPart(t, true)
-		if !strings.ContainsAny(s, "ABCDEFGHIJKLMNOPQRSTUVWXYZ") {
-			s = s + "X" + genStr(t, alnum, 0, 2, "tail")
-		}
-		return s
-	case 6: // trailing dot
-		return genHostPart(t, false) + "."
-	case 7:
-		return rapid.SampledFrom([]string{"docker.io", "index.docker.io", "registry-1.docker.io", "ghcr.io", "quay.io", "registry.example.com:5000"}).Draw(t, "known")
-	default: // dotted domain, optional trailing dot and port
-		n := rapid.IntRange(2, 4).Draw(t, "nparts")
-		parts := make([]string, n)
-		for i := range parts {
-			parts[i] = genHostPart(t, rapid.IntRange(0, 4).Draw(t, "up") == 0)
-		}
-		s := strings.Join(parts, ".")
-		if rapid.IntRange(0, 5).Draw(t, "tdot") == 0 {
-			s += "."
-		}
-		if rapid.IntRange(0, 2).Draw(t, "hasport") == 0 {
-			s += ":" + genStr(t, []rune("0123456789"), 1, 5, "port")
-		}
-		return s
-	}
-}
-
-func genRepoPart(t *rapid.T) string {
-	if rapid.IntRange(0, 12).Draw(t, "lh") == 0 {
-		return "localhost"
-	}
-	s := genStr(t, lowNum, 1, 5, "rp")
-	n := rapid.IntRange(0, 2).Draw(t, "seps")
-	for i := 0; i < n; i++ {
-		sep := rapid.SampledFrom([]string{".", "_", "__", "-", "--", "---"}).Draw(t, "sep")
-		s += sep + genStr(t, lowNum, 1, 4, "rp")
-	}
-	return s
-}
-
-func genRepo(t *rapid.T) string {
-	n := rapid.IntRange(1, 4).Draw(t, "nrepo")
-	parts := make([]string, n)
-	for i := range parts {
-		parts[i] = genRepoPart(t)
-	}
-	return strings.Join(parts, "/")
-}
-
-var tagFirst = []rune("abcdefghijklmnopqrstuvwxyzABCDEFGHIJKLMNOPQRSTUVWXYZ0123456789_")
-var tagRest = []rune("abcdefghijklmnopqrstuvwxyzABCDEFGHIJKLMNOPQRSTUVWXYZ0123456789_.-")
-
-func genTag(t *rapid.T) string {
-	switch rapid.IntRange(0, 9).Draw(t, "tagkind") {
-	case 0:
-		return "latest"
-	case 1: // exactly 128
-		return genStr(t, tagFirst, 1, 1, "t0") + strings.Repeat(rapid.SampledFrom([]string{"a", ".", "-", "_", "Z", "9"}).Draw(t, "fill"), 127)
-	case 2:
-		return rapid.SampledFrom([]string{"5000", "v1.2.3", "_", "1", "sha256-abc.sig", "a--b", "A.B_C-d"}).Draw(t, "tconst")
-	default:
-		return genStr(t, tagFirst, 1, 1, "t0") + genStr(t, tagRest, 0, 12, "t1")
-	}
-}
-
-var hexl = []rune("0123456789abcdef")
-var hexm = []rune("0123456789abcdefABCDEF")
-
-func genDigest(t *rapid.T) string {
-	alg := rapid.SampledFrom([]string{"sha256", "sha256", "sha512", "sha384", "blake3", "sha256+b64u", "multi.part-alg_x", "SHA256", "a"}).Draw(t, "alg")
-	n := rapid.SampledFrom([]int{32, 33, 64, 64, 64, 128, 40, 96}).Draw(t, "hexlen")
-	al := hexl
-	if rapid.IntRange(0, 6).Draw(t, "mixhex") == 0 {
-		al = hexm
-	}
-	return alg + ":" + genStr(t, al, n, n, "hex")
-}
-
-var pathChars = []rune("abcXYZ019_-. ~+/")
-
-func genPath(t *rapid.T) string {
-	switch rapid.IntRange(0, 7).Draw(t, "pathkind") {
-	case 0:
-		return rapid.SampledFrom([]string{".", "..", "/", "./", "../..", "~", "~/x", "a b", "/tmp/x y/z", "./a+b", "a/", "//a", "a..b", " "}).Draw(t, "pconst")
-	case 1:
-		return "/" + genStr(t, pathChars, 1, 12, "p")
-	default:
-		return genStr(t, pathChars, 1, 14, "p")
-	}
-}
-
-// genGrammar draws a string from the reference grammar, component-wise.
-func genGrammar(t *rapid.T) string {
-	if rapid.IntRange(0, 3).Draw(t, "isoci") == 0 {
-		s := rapid.SampledFrom([]string{"ocidir://", "ocidir://", "ocidir://", "ocifile://"}).Draw(t, "scheme") + genPath(t)
-		if rapid.Bool().Draw(t, "hastag") {
-			s += ":" + genTag(t)
-		}
-		if rapid.Bool().Draw(t, "hasdig") {
-			s += "@" + genDigest(t)
-		}
-		return s
-	}
-	s := ""
-	if rapid.IntRange(0, 2).Draw(t, "hasreg") > 0 {
-		s = genRegistry(t) + "/"
-	}
-	s += genRepo(t)
-	if rapid.Bool().Draw(t, "hastag") {
-		s += ":" + genTag(t)
-	}
-	if rapid.IntRange(0, 2).Draw(t, "hasdig") == 0 {
-		s += "@" + genDigest(t)
-	}
-	return s
-}
-
-var mutKinds = []string{"upper-repo", "empty-component", "double-slash", "trail-slash", "trail-colon", "trail-at",
-	"bad-tag-char", "long-tag", "short-hex", "unknown-scheme", "ocifile", "prefix-junk", "suffix-junk", "insert-byte",
-	"delete-byte", "dup-at", "dup-colon", "underscore-host", "lead-sep", "nonhex", "newline", "space", "upper-scheme",
-	"empty-alg", "lead-dash-tag", "empty-scheme", "scheme-variant", "scheme-sep-variant"}
-
-// genMutation applies one grammar-leaving edit to a grammar string. (Whether
-// the result really is outside the grammar is decided by the reference model,
-// not assumed.)
-func genMutation(t *rapid.T) (string, string) {
-	s := genGrammar(t)
-	kind := rapid.SampledFrom(mutKinds).Draw(t, "mut")
-	pos := func() int {
-		if len(s) == 0 {
-			return 0
-		}
-		return rapid.IntRange(0, len(s)-1).Draw(t, "pos")
-	}
-	switch kind {
-	case "upper-repo":
-		// upper-case one lower-case letter
-		idx := []int{}
-		for i := 0; i < len(s); i++ {
-			if isLower(s[i]) {
-				idx = append(idx, i)
-			}
-		}
-		if len(idx) > 0 {
-			i := rapid.SampledFrom(idx).Draw(t, "i")
-			s = s[:i] + strings.ToUpper(s[i:i+1]) + s[i+1:]
-		}
-	case "empty-component":
-		i := strings.IndexByte(s, '/')
-		if i >= 0 {
-			s = s[:i] + "/" + s[i:]
-		} else {
-			s = "/" + s
-		}
-	case "double-slash":
-		p := pos()
-		s = s[:p] + "//" + s[p:]
-	case "trail-slash":
-		s += "/"
-	case "trail-colon":
-		s += ":"
-	case "trail-at":
-		s += "@"
-	case "bad-tag-char":
-		c := rapid.SampledFrom([]string{"!", "$", "*", "%", "é", "\x00", "\\", "?", "#", "="}).Draw(t, "c")
-		if i := strings.LastIndexByte(s, ':'); i >= 0 && !strings.Contains(s, "@") {
-			s = s[:i+1] + c + s[i+1:]
-		} else {
-			s = s + ":" + "a" + c
-		}
-	case "long-tag":
-		at := ""
-		if i := strings.IndexByte(s, '@'); i >= 0 {
-			s, at = s[:i], s[i:]
-		}
-		if strings.HasPrefix(s, "oci") {
-			i := strings.LastIndexByte(s, ':')
-			if i > 8 {
-				s = s[:i]
-			}
-		}
-		s = s + ":" + strings.Repeat("t", 129) + at
-	case "short-hex":
-		n := rapid.SampledFrom([]int{0, 1, 16, 31}).Draw(t, "n")
-		if i := strings.IndexByte(s, '@'); i >= 0 {
-			s = s[:i]
-		}
-		s += "@sha256:" + strings.Repeat("a", n)
-	case "unknown-scheme":
-		sc := rapid.SampledFrom([]string{"http", "https", "oci", "docker", "file", "ocidirx", "reg", "o"}).Draw(t, "sc")
-		if i := strings.Index(s, "://"); i >= 0 {
-			s = sc + s[i:]
-		} else {
-			s = sc + "://" + s
-		}
-	case "ocifile":
-		if i := strings.Index(s, "://"); i >= 0 {
-			s = "ocifile" + s[i:]
-		} else {
-			s = "ocifile://" + s
-		}
-	case "prefix-junk":
-		s = rapid.SampledFrom([]string{" ", "-", ".", "_", "@", ":", "/", "\t", "é", "!"}).Draw(t, "j") + s
-	case "suffix-junk":
-		s = s + rapid.SampledFrom([]string{" ", "-", ".", "_", "!", "\n", "\t", "é", "/x y", "\x00"}).Draw(t, "j")
-	case "insert-byte":
-		p := pos()
-		b := rapid.SampledFrom([]string{" ", "A", "_", "-", ".", ":", "@", "/", "\x00", "\n", "é", "+", "~", "%"}).Draw(t, "b")
-		s = s[:p] + b + s[p:]
-	case "delete-byte":
-		if len(s) > 1 {
-			p := pos()
-			s = s[:p] + s[p+1:]
-		}
-	case "dup-at":
-		s += "@" + genDigest(t)
-	case "dup-colon":
-		s += ":" + genTag(t)
-	case "underscore-host":
-		if i := strings.IndexByte(s, '/'); i > 0 {
-			s = s[:i/2] + "_" + s[i/2:]
-		} else {
-			s = "a_b.c/" + s
-		}
-	case "lead-sep":
-		s = rapid.SampledFrom([]string{".", "-", "_", "__"}).Draw(t, "ls") + s
-	case "nonhex":
-		if i := strings.IndexByte(s, '@'); i >= 0 {
-			s = s[:i]
-		}
-		s += "@sha256:" + strings.Repeat("a", 63) + rapid.SampledFrom([]string{"g", "z", "-", " ", "G"}).Draw(t, "nh")
-	case "newline":
-		p := pos()
-		s = s[:p] + "\n" + s[p:]
-	case "space":
-		p := pos()
-		s = s[:p] + " " + s[p:]
-	case "upper-scheme":
-		if i := strings.Index(s, "://"); i >= 0 {
-			s = strings.ToUpper(s[:1]) + s[1:]
-		} else {
-			s = "Ocidir://" + s
-		}
-	case "empty-alg":
-		if i := strings.IndexByte(s, '@'); i >= 0 {
-			s = s[:i]
-		}
-		s += "@" + rapid.SampledFrom([]string{":", "1sha:", "sha-:", "-sha:", "sha..x:", "sha256"}).Draw(t, "ea") + strings.Repeat("b", 64)
-	case "empty-scheme":
-		// an empty scheme in front of something that is itself a reference or host
-		if i := strings.Index(s, "://"); i >= 0 {
-			s = s[i:]
-		} else {
-			s = "://" + s
-		}
-	case "scheme-variant":
-		sc := rapid.SampledFrom([]string{"oci2", "ocidir2", "oci-dir", "oci.dir", "oci+dir", "oci_dir", "OciDir", "ocidiR", "0", "é", " ocidir", "ocidir ", "reg", "docker"}).Draw(t, "scv")
-		if i := strings.Index(s, "://"); i >= 0 {
-			s = sc + s[i:]
-		} else {
-			s = sc + "://" + s
-		}
-	case "scheme-sep-variant":
-		sep := rapid.SampledFrom([]string{":/", ":", ":///", "//", ":\\/", "://://", " ://", ":// "}).Draw(t, "ssv")
-		if i := strings.Index(s, "://"); i >= 0 {
-			s = s[:i] + sep + s[i+3:]
-		} else {
-			s = rapid.SampledFrom([]string{"ocidir", "ocifile", "x", ""}).Draw(t, "ssc") + sep + s
-		}
-	case "lead-dash-tag":
-		if i := strings.IndexByte(s, '@'); i >= 0 {
-			s = s[:i]
-		}
-		s += ":" + rapid.SampledFrom([]string{"-a", ".a", "-", "."}).Draw(t, "ldt")
-	}
-	return s, kind
-}
-
-func gen(t *rapid.T) Case {
-	var c Case
-	switch k := rapid.IntRange(0, 9).Draw(t, "origin"); {
-	case k < 4:
-		c.Input, c.Origin = genGrammar(t), "grammar"
-	case k < 8:
-		s, kind := genMutation(t)
-		c.Input, c.Origin = s, "mutation:"+kind
-	default:
-		c.Input, c.Origin = string(rapid.SliceOfN(rapid.Byte(), 0, 40).Draw(t, "bytes")), "bytes"
-	}
-	c.NewTag = genTag(t)
-	c.NewDig = genDigest(t)
-	return c
-}
-
 // --------------------------------------------------------------------- check
 
 func fieldsEq(r ref.Ref, p Parsed) bool {
